@@ -568,7 +568,8 @@ class Sim:
         S = state_digest(h)
         others = self._others(hi)
         try:
-            a = ("ok", h.to_cif_string())
+            with _Strict(self.A.get("strict")):
+                a = ("ok", h.to_cif_string())
         except Exception as e:  # noqa: BLE001
             a = ("raised", type(e).__name__)
         try:
@@ -587,7 +588,8 @@ class Sim:
             self._log(i, hi, "cif_twin", "skipped:state")
             return
         try:
-            b = ("ok", twin.to_cif_string())
+            with _Strict(self.A.get("strict")):
+                b = ("ok", twin.to_cif_string())
         except Exception as e:  # noqa: BLE001
             b = ("raised", type(e).__name__)
         self.stats["checked"] += 1
@@ -880,8 +882,14 @@ class Sim:
                 if "cif_data" not in h.properties:
                     self._log(i, hi, op, "skipped")
                     return
-                (name, data), = h.to_cif_data().items()
-                new = Crystal.from_cif_data(data, titl=name)
+                try:
+                    with _Strict(self.A.get("strict")):
+                        (name, data), = h.to_cif_data().items()
+                        new = Crystal.from_cif_data(data, titl=name)
+                except Exception as e:  # noqa: BLE001 - the caller's call raised: no second crystal
+                    self.last_raise[hi] = op + "!" + type(e).__name__
+                    self._log(i, hi, op, "raised:" + type(e).__name__)
+                    return
                 group = self.cif_group[hi] if self.cif_group[hi] is not None else i
                 self.cif_group[hi] = group
                 self.world.append(new)
@@ -923,10 +931,20 @@ class Sim:
                 self._log(i, hi, op, "-> h%d" % (len(self.world) - 1))
                 self._check_others(i, hi, op, others)
                 return
-            new = O.FORKS[op](h)
+            with _Strict(self.A.get("strict")):
+                new = O.FORKS[op](h)
         except O.Unsupported as e:
             self.stats["fork:unsupported:" + op] += 1
             self._log(i, hi, op, "unsupported:" + str(e))
+            return
+        except Exception as e:  # noqa: BLE001 - the copy operation itself raised (e.g. a warning turned into an error)
+            if not self.A.get("strict"):
+                raise
+            self.stats["fork:raised:%s:%s" % (op, type(e).__name__)] += 1
+            self.last_raise[hi] = op + "!" + type(e).__name__
+            self._log(i, hi, op, "raised:" + type(e).__name__)
+            if state_digest(h) != S:
+                raise Violation("QUERY_MUTATED_STATE", i, op, hi, {"what": "a copy operation that raised changed its source"})
             return
         if state_digest(h) != S:
             raise Violation("QUERY_MUTATED_STATE", i, op, hi, {"what": "fork changed its source"})
@@ -984,7 +1002,8 @@ class Sim:
         S = state_digest(h)
         others = self._others(hi)
         try:
-            new = O.DERIVES[op](h)
+            with _Strict(self.A.get("strict")):  # every library call of the run sees the caller's environment
+                new = O.DERIVES[op](h)
         except Exception as e:  # noqa: BLE001 - e.g. no molecules; not judged here
             self.stats["derive_raised:%s:%s" % (op, type(e).__name__)] += 1
             self.last_raise[hi] = op + "!" + type(e).__name__
